@@ -397,7 +397,7 @@ func init() {
 
 func synBounds(tier string) mergeBounds {
 	if tier == "quick" {
-		return mergeBounds{maxLen1: 3, triples: []int{0, 1, 2, 3}, modes: []uint32{1026}, depth2: true, d2Menu: []int{0, 1, 3}, fullDrops: true}
+		return mergeBounds{maxLen1: 3, triples: []int{0, 1, 3}, modes: []uint32{1026}, depth2: true, d2Menu: []int{1}, fullDrops: true}
 	}
 	return mergeBounds{maxLen1: 3, modes: []uint32{1, 1026}, depth2: true, d2Menu: []int{0, 1, 2, 3, 4, 5}, depth3: true, fullDrops: true}
 }
@@ -409,7 +409,7 @@ func init() {
 		Rule:        "explicit-state exploration of the merge state space restricted to a synonym menu of 6 segment shapes (same synonyms with different internal ids in different inputs; a term defined in several segments; a thesaurus present in only one input; two definers of one term; a segment without synonyms; an empty batch), inputs in memory or re-opened; transitions = Merge(ordered list of <=3 states, EVERY drop vector incl. all definers of a term / all documents of a thesaurus deleted); distinct depth-1 states (canonical key from the reference model) are merged again at depth 2 (and 3 in thorough). Oracle in every state: for every (thesaurus, term, exclusion bitmap) the (synonym, doc) pairs == reference of the survivors under the new numbering, terms without survivors absent, ordinary dictionaries unaffected. Non-trivial = merge with >= 1 survivor.",
 		Assumptions: batchAssumptions,
 		Bounds: map[string]string{
-			"quick":    "lists <=2 over 6 items + triples over 4 items, every drop vector, depth 2 with 3 items",
+			"quick":    "lists <=2 over 6 items + triples over 3 items, every drop vector, depth 2 with 1 item",
 			"thorough": "lists <=3 over 6 items, chunk modes {1,1026}, depth 2 with all items, depth 3",
 		},
 		New: func() interface{} { return &enum.MergeCase{} },
